@@ -150,6 +150,12 @@ func mapOrderRule(p *Prog, name, doc string, filter func(*mapLoop) bool, floor i
 					void = void2
 				}
 			}
+			if fnv := p.FindFunc(ml.fnName); fnv != nil {
+				if via := excInheritedFromCallers(p, c08MapLoopExceptions, fnv, ml.key); via != "" {
+					r.OK(ml.key, true, "reviewed for its only caller(s): "+via)
+					continue
+				}
+			}
 			if void != "" {
 				void = " [reviewed exception void: " + void + "]"
 			}
@@ -756,6 +762,12 @@ func c08Ambient(p *Prog) *RuleResult {
 	for _, s := range sites {
 		r.Instances++
 		key := FuncName(s.Caller) + " " + s.Callee
+		if _, listed := c08AmbientOwners[key]; !listed {
+			if via := excInheritedFromCallers(p, c08AmbientOwners, s.Caller, key); via != "" {
+				r.OK(key, true, "reviewed for its only caller(s): "+via)
+				continue
+			}
+		}
 		if !r.CheckExc(c08AmbientOwners, key) {
 			r.Fail(key, p.Pos(s.Instr.Pos()), "new ambient nondeterminism source ("+s.Callee+") outside the reviewed owner table")
 		}
@@ -1230,4 +1242,47 @@ func isCompactionCursor(v ssa.Value) bool {
 		return false
 	}
 	return okEdge(ph, 0)
+}
+
+// excInheritedFromCallers: a function that was split off a function with a reviewed table entry
+// inherits the entry when every in-module caller has the entry obtained by substituting the caller's
+// name for the function's name in the key. Returns the callers, or "".
+func excInheritedFromCallers(p *Prog, table ExcTable, fn *ssa.Function, key string) string {
+	name := FuncName(fn)
+	if !strings.Contains(key, name) {
+		return ""
+	}
+	n := p.CallGraph().Nodes[fn]
+	if n == nil {
+		return ""
+	}
+	seen := map[*ssa.Function]bool{}
+	var callers []string
+	for _, e := range n.In {
+		caller := e.Caller.Func
+		if caller == fn || seen[caller] || !p.InModule(caller) {
+			continue
+		}
+		seen[caller] = true
+		k2 := strings.Replace(key, name, FuncName(caller), 1)
+		if _, ok := table[k2]; !ok {
+			// ordinal-free match
+			base := c08OrdinalRe.ReplaceAllString(k2, "")
+			found := false
+			for k := range table {
+				if c08OrdinalRe.ReplaceAllString(k, "") == base {
+					found = true
+				}
+			}
+			if !found {
+				return ""
+			}
+		}
+		callers = append(callers, FuncName(caller))
+	}
+	if len(callers) == 0 {
+		return ""
+	}
+	sort.Strings(callers)
+	return strings.Join(callers, ", ")
 }
